@@ -18,7 +18,8 @@ def result_signature(r, rvd_map=False, swap=False, drop_rvd_agg=False):
         vals = e["all"]
         if m == "RVD" and rvd_map:
             vals = [(-v / (1 + v)) if v != -1 else float("inf") for v in vals]
-        sig[m] = sorted(round(v, 9) for v in vals)
+        # NaN entries compare equal to NaN entries (a multiset of values; two undefined values are the same outcome)
+        sig[m] = sorted(("nan" if v != v else round(v, 9) for v in vals), key=lambda x: (isinstance(x, str), 0 if isinstance(x, str) else x))
         if not (m == "RVD" and (rvd_map or drop_rvd_agg)):
             for k in ("sq", "std", "pq"):
                 if k in e:
